@@ -106,7 +106,14 @@ func (j *cacheJanitor[MetadataT]) cleanExpiredEntries() {
 	keysToRemove := make([]CacheKey, 0)
 
 	for key, meta := range j.cacheFns.cacheIterator {
+		// The metadata is written under the entry's lock (Get, UpdateMetadata, ...), so it must
+		// be read under it as well. An entry whose lock is taken is in use: skip it this cycle.
+		lock := j.cacheFns.getLock(key)
+		if !lock.TryRLock() {
+			continue
+		}
 		expired := meta.Expires.Before(time.Now())
+		lock.RUnlock()
 
 		if !expired {
 			continue
@@ -154,26 +161,37 @@ func (j *cacheJanitor[MetadataT]) cleanExpiredEntries() {
 // Evict entries until 80% of maxCacheBytes is reached
 func (j *cacheJanitor[MetadataT]) evict(maxCacheBytes int64) {
 	type entryForEviction struct {
-		key      CacheKey
-		meta     *EntryMetadata[MetadataT]
-		priority int64 // Lower = evict first
+		key        CacheKey
+		size       int64
+		lastAccess time.Time
+		priority   int64 // Lower = evict first
 	}
 
 	candidates := make([]entryForEviction, 0, j.cacheFns.getCacheLen())
 	now := time.Now()
 
 	for key, meta := range j.cacheFns.cacheIterator {
-		timeSinceAccess := now.Sub(meta.LastAccess).Milliseconds()
-		sizeWeight := meta.Size / bytesize.UnitM
+		// Read the metadata under the entry's lock (it is written under it). An entry whose lock
+		// is taken - e.g. by the store that triggered this eviction - is in use and not a candidate.
+		lock := j.cacheFns.getLock(key)
+		if !lock.TryRLock() {
+			continue
+		}
+		size, lastAccess := meta.Size, meta.LastAccess
+		lock.RUnlock()
+
+		timeSinceAccess := now.Sub(lastAccess).Milliseconds()
+		sizeWeight := size / bytesize.UnitM
 
 		// Calculate eviction priority (highest = evict first)
 		// Factors: age since last access + file size weight
 		priority := timeSinceAccess + (sizeWeight * 100) // Give size significant weight
 
 		candidates = append(candidates, entryForEviction{
-			key:      key,
-			meta:     meta,
-			priority: priority,
+			key:        key,
+			size:       size,
+			lastAccess: lastAccess,
+			priority:   priority,
 		})
 	}
 
@@ -196,7 +214,7 @@ func (j *cacheJanitor[MetadataT]) evict(maxCacheBytes int64) {
 
 		lock := j.cacheFns.getLock(candidate.key)
 		if lock.TryLock() {
-			slog.Info("Evicting cache entry", "key", candidate.key.Hex, "size", candidate.meta.Size, "last_access", candidate.meta.LastAccess)
+			slog.Info("Evicting cache entry", "key", candidate.key.Hex, "size", candidate.size, "last_access", candidate.lastAccess)
 
 			if err := j.cacheFns.removeEntry(candidate.key); err != nil {
 				slog.Info("Failed to evict cache entry", "key", candidate.key.Hex, "error", err)
